@@ -139,7 +139,12 @@ def array_shard(args):
         sp = spec(names)
         sid = "{" + ",".join(names) + "}"
         cols = {n: np.array([10.0 * (j + 1) + 0.25, 10.0 * (j + 1) + 0.5]) for j, n in enumerate(names)}
-        ctors = [("array", lambda: vector.array({n: cols[n] for n in names})),
+        def structured():
+            raw = np.zeros(2, dtype=[(n, float) for n in names])
+            for n in names:
+                raw[n] = cols[n]
+            return vector.array(raw)
+        ctors = [("array", lambda: vector.array({n: cols[n] for n in names})), ("array(structured-ndarray)", structured),
                  ("array(dtype)", lambda: vector.array(list(zip(*[cols[n] for n in names])), dtype=[(n, float) for n in names]))]
         if ak is not None:
             ctors += [("zip", lambda: vector.zip({n: cols[n] for n in names})),
